@@ -25,7 +25,7 @@ from ..engine import Eval, Failure, Guarded, Target, guard
 CLAUSE_PROPS = {
     "wkt_bp_to_ref": {"C02"}, "wkt_ref_rejects": {"C02"}, "wkt_ref_to_bp": {"C02"},
     "wkt_roundtrip": {"C01"}, "wkt_reencode_bytes": {"C01"},
-    "wkt_len_vs_bytes": {"C09"}, "wkt_dump_delimited": {"C09"}, "wkt_load_delimited": {"C09", "C10"},
+    "wkt_len_vs_bytes": {"C09"}, "wkt_dump_delimited": {"C09", "C10"}, "wkt_load_delimited": {"C09", "C10"},
     "wkt_libraries_differ_bytes": {"C18"}, "wkt_libraries_differ_dict": {"C18"},
 }
 WRAPPERS = {"DoubleValue": "double", "FloatValue": "float", "Int64Value": "int64", "UInt64Value": "uint64", "Int32Value": "int32",
